@@ -313,7 +313,7 @@ def build_model(fam):
     return exe, None
 
 
-def run_model(exe, lines, timeout=1200, args=()):
+def _run_model_chunk(exe, lines, timeout, args):
     p = subprocess.run([exe] + list(args), input='\n'.join(lines) + '\n', stdout=subprocess.PIPE, stderr=subprocess.PIPE, text=True, timeout=timeout)
     out = p.stdout.split('\n')
     if out and out[-1] == '':
@@ -321,6 +321,19 @@ def run_model(exe, lines, timeout=1200, args=()):
     if p.returncode != 0 or len(out) != len(lines):
         raise RuntimeError('model driver failed rc=%d produced %d/%d lines\n%s' % (p.returncode, len(out), len(lines), p.stderr[-2000:]))
     return out
+
+
+def run_model(exe, lines, timeout=3000, args=()):
+    """every line is an independent case: large batches are split over the cores"""
+    if len(lines) < 4000:
+        return _run_model_chunk(exe, lines, timeout, args)
+    from concurrent.futures import ThreadPoolExecutor
+    n = min(NPROC, max(2, len(lines) // 2000))
+    size = (len(lines) + n - 1) // n
+    chunks = [lines[k:k + size] for k in range(0, len(lines), size)]
+    with ThreadPoolExecutor(max_workers=n) as ex:
+        outs = list(ex.map(lambda c: _run_model_chunk(exe, c, timeout, args), chunks))
+    return [l for o in outs for l in o]
 
 
 # ---------------------------------------------------------------------------------------------
